@@ -146,6 +146,7 @@ func cases(tier string, seed int64) []eng.Case {
 		out = append(out, eng.Case{ID: fmt.Sprintf("bufprim/%d", i), Sig: "C08|bufprim", Desc: map[string]any{"check": "bufprim", "index": i}, Run: func(c *eng.Ctx) { runBufPrim(c, idx, tier) }})
 	}
 	out = append(out, eng.Case{ID: "equalshape", Sig: "C08|equal", Desc: map[string]any{"check": "equalshape"}, Run: runEqualShape})
+	out = append(out, eng.Case{ID: "siblings", Sig: "C08|siblings", Desc: map[string]any{"check": "siblings"}, Run: runSiblings})
 	for i := 0; i < nm; i++ {
 		idx := i
 		out = append(out, eng.Case{ID: fmt.Sprintf("bufmodel/%d", i), Sig: "C08|bufmodel", Desc: map[string]any{"check": "bufmodel", "index": i}, Run: func(c *eng.Ctx) { runBufferModel(c, idx) }})
